@@ -216,9 +216,10 @@ def prune_doc(d):
     if isinstance(d, dict):
         out = {}
         for k, v in d.items():
-            if k == "bins" and isinstance(v, dict):
+            if k == "bins" and isinstance(v, dict) and "bins:type" in d:
+                # (the bins of a SparselyBin / Categorize — not a collection member that happens to be called "bins")
                 out[k] = {bk: prune_doc(bv) for bk, bv in v.items() if not _is_empty(bv)}
-            elif k == "values" and isinstance(v, list) and v and isinstance(v[0], dict) and "w" in v[0]:
+            elif k == "values" and "range" in d and isinstance(v, list) and v and isinstance(v[0], dict) and "w" in v[0]:
                 out[k] = [prune_doc(x) for x in v if x["w"] != 0]
             else:
                 out[k] = prune_doc(v)
@@ -498,10 +499,44 @@ class PyExec:
             a, b = mutable_ids(P[op[1]]), mutable_ids(P[op[2]])
             common = [type(a[i]).__name__ for i in a if i in b]
             return ("violation: %s: %s and %s share mutable state (%s)" % (op[3], op[1], op[2], ", ".join(common[:3]))) if common else "ok"
+        if k == "derived":
+            # ("derived", h, rows): the derived aggregators a container offers as methods (histogram(), toImmutable()) are new
+            # objects: they share no mutable state with their source, and filling / merging into them leaves the source alone
+            src = P[op[1]]
+            before = json_dumps_state(src)
+            for meth in ("histogram", "toImmutable"):
+                if getattr(type(src), meth, None) is None:   # (class-level: Select forwards unknown attributes to its cut)
+                    continue
+                try:
+                    g = getattr(src, meth)()
+                except Exception:  # noqa: BLE001
+                    continue   # (CentrallyBin.histogram() raises TypeError on the unchanged tree: no object, nothing shared)
+                a, b = mutable_ids(src), mutable_ids(g)
+                common = [type(a[i]).__name__ for i in a if i in b]
+                if common:
+                    return "violation: %s.%s() shares mutable state with its source (%s)" % (src.name, meth, ", ".join(common[:3]))
+                for d, w in op[2]:
+                    try:
+                        g.fill(d, w)
+                    except Exception:  # noqa: BLE001 - the immutable form cannot be filled
+                        break
+                try:
+                    g += g.copy()
+                except Exception:  # noqa: BLE001
+                    pass
+                if json_dumps_state(src) != before:
+                    return "violation: filling / merging into the result of %s.%s() changed the source" % (src.name, meth)
+            return "ok"
         if k == "checkeq":
             d = diff_doc(self.state(op[1]), self.state(op[2]))
             return ("violation: %s: %s and %s differ: %s" % (op[3], op[1], op[2], d)) if d else "ok"
         raise ValueError(op)
+
+
+def json_dumps_state(obj):
+    import json as _json
+
+    return _json.dumps(obj.toJson(), sort_keys=True, default=str)
 
 
 def op_to_wire(op):
@@ -613,7 +648,7 @@ def expand(op, py):
     return op
 
 
-PY_ONLY_OPS = {"ctors", "noshare", "check_faithful", "snap", "checksnap", "checksnap_if_raised", "checkeq", "hash", "iadd_pyonly"}
+PY_ONLY_OPS = {"ctors", "derived", "noshare", "check_faithful", "snap", "checksnap", "checksnap_if_raised", "checkeq", "hash", "iadd_pyonly"}
 
 
 def run_history(ops, model, check_states=True, py=None, replies=None, model_ops=None, expander=None):
